@@ -735,7 +735,25 @@ func stopErr(stop func(), block chan struct{}) func() {
 // Replay times one case.
 func Replay(c Case) Result {
 	res := Result{N: c.N, Cfg: c.Cfg}
-	st, err := prepare(c.Cfg)
+	// the preparation itself uses context-taking operations with short deadlines (to fill queues): one of
+	// them not coming back is the very thing this check is about
+	type prep struct {
+		st  *setup
+		err error
+	}
+	pc := make(chan prep, 1)
+	go func() { st, err := prepare(c.Cfg); pc <- prep{st, err} }()
+	var st *setup
+	var err error
+	select {
+	case p := <-pc:
+		st, err = p.st, p.err
+	case <-time.After(12 * time.Second):
+		res.Actual = []Event{{K: "op", Op: c.Cfg.Op, Tr: c.Cfg.Tr, Ctx: c.Cfg.Ctx, EndAt: c.Cfg.EndAt, Bound: c.Cfg.Bound * 1000,
+			Lat: 12000, Err: "none", Blocked: "y", Hang: "y", Msg: "an operation of the preparation ignored its deadline"}}
+		res.Note = "preparation hangs"
+		return res
+	}
 	if err != nil {
 		res.Note = "setup: " + err.Error()
 		return res
